@@ -236,11 +236,39 @@ Definition obs_matches (full : outcome) (model : outcome) (o : obs) : bool :=
   | OOther x => outcome_eqb model x
   end.
 
+(* a probe: reader version (relative to the writer's), patches (position, new byte) applied to the entry,
+   bytes appended, and the observed outcome (relative to the outcome on the complete entry, to keep
+   the generated case files small) *)
+Inductive vspec := VSame | VPatch (ps : list (Z * Z)) | VLit (v : bytes).
+Inductive pout := PO (o : outcome) | PSame | POffs (l : list Z) | PSm (ws es : list Z).
+Definition probe := (vspec * list (Z * Z) * bytes * pout)%type.
+
+Definition patch1 (e : bytes) (pb : Z * Z) : bytes :=
+  let n := Z.to_nat (fst pb) in firstn n e ++ [snd pb] ++ skipn (S n) e.
+
+Definition apply_patches (e : bytes) (ps : list (Z * Z)) : bytes := fold_left patch1 ps e.
+
+Definition version_of (v : bytes) (s : vspec) : bytes :=
+  match s with VSame => v | VPatch ps => apply_patches v ps | VLit w => w end.
+
+Definition pout_matches (full model : outcome) (p : pout) : bool :=
+  match p with
+  | PO o => outcome_eqb model o
+  | PSame => match full with Ok _ => outcome_eqb model full | _ => false end
+  | POffs l => match full with
+               | Ok cm => outcome_eqb model (Ok {| cm_offsets := l; cm_exec := cm_exec cm;
+                                                   cm_sm_wasm := cm_sm_wasm cm; cm_sm_exec := cm_sm_exec cm |})
+               | _ => false end
+  | PSm ws es => match full with
+                 | Ok cm => outcome_eqb model (Ok {| cm_offsets := cm_offsets cm; cm_exec := cm_exec cm;
+                                                     cm_sm_wasm := ws; cm_sm_exec := es |})
+                 | _ => false end
+  end.
+
 (* a codec case:
    version, module, what serialize returned (None = panic), the outcome on the complete entry,
-   the observation for every truncation length 0 .. len-1 (in order),
-   and a list of (reader version, input bytes, outcome) probes (version changes, corruptions) *)
-Definition ccase := (bytes * cmod * option bytes * outcome * list obs * list (bytes * bytes * outcome))%type.
+   the observation for every truncation length 0 .. len-1 (in order), and the probes *)
+Definition ccase := (bytes * cmod * option bytes * outcome * list obs * list probe)%type.
 
 Fixpoint trunc_diff (v e : bytes) (full : outcome) (k : nat) (os : list obs) : Z :=
   match os with
@@ -249,10 +277,12 @@ Fixpoint trunc_diff (v e : bytes) (full : outcome) (k : nat) (os : list obs) : Z
               then trunc_diff v e full (S k) r else Z.of_nat k
   end.
 
-Fixpoint probe_diff (i : Z) (ps : list (bytes * bytes * outcome)) : Z :=
+Fixpoint probe_diff (v e : bytes) (full : outcome) (i : Z) (ps : list probe) : Z :=
   match ps with
   | [] => -1
-  | (v', inp, o) :: r => if outcome_eqb (deserialize crc32c v' inp) o then probe_diff (i + 1) r else i
+  | (vs, pt, sfx, o) :: r =>
+    if pout_matches full (deserialize crc32c (version_of v vs) (apply_patches e pt ++ sfx)) o
+    then probe_diff v e full (i + 1) r else i
   end.
 
 Definition opt_bytes_eqb (a b : option bytes) : bool :=
@@ -265,13 +295,13 @@ Definition check_ccase (c : ccase) : Z :=
   let '(v, cm, ser, full, truncs, probes) := c in
   if negb (opt_bytes_eqb (serialize crc32c v cm) ser) then -2 else
   match ser with
-  | None => let p := probe_diff 0 probes in if p =? -1 then -1 else 1000000 + p
+  | None => -1
   | Some e =>
     if negb (outcome_eqb (deserialize crc32c v e) full) then -3 else
     if negb (Nat.eqb (length truncs) (length e)) then -4 else
     let t := trunc_diff v e full 0 truncs in
     if negb (t =? -1) then t else
-    let p := probe_diff 0 probes in if p =? -1 then -1 else 1000000 + p
+    let p := probe_diff v e full 0 probes in if p =? -1 then -1 else 1000000 + p
   end.
 
 Fixpoint mismatches (i : Z) (cs : list ccase) : list (Z * Z) :=
@@ -279,4 +309,19 @@ Fixpoint mismatches (i : Z) (cs : list ccase) : list (Z * Z) :=
   | [] => []
   | c :: r => let d := check_ccase c in
               if d =? -1 then mismatches (i + 1) r else (i, d) :: mismatches (i + 1) r
+  end.
+
+(* an entry planted under the final name and then used by a fresh runtime. Observed class:
+   0 = used as it is, 1 = discarded and compiled afresh, 2 = reported as an error, 3 = host panic *)
+Definition pcase := (bytes * bytes * Z)%type.
+
+Definition outcome_class (o : outcome) : Z :=
+  match o with Ok _ => 0 | Stale => 1 | Error => 2 | Panic => 3 end.
+
+Fixpoint p_mismatches (i : Z) (cs : list pcase) : list (Z * Z) :=
+  match cs with
+  | [] => []
+  | (v, inp, cl) :: r =>
+    let m := outcome_class (deserialize crc32c v inp) in
+    if m =? cl then p_mismatches (i + 1) r else (i, m) :: p_mismatches (i + 1) r
   end.
